@@ -266,9 +266,9 @@ func c10Inputs(l *Lab, cfg c10Cfg, rnd *rand.Rand) []c10Input {
 	trs := Transports()
 	pick := func(i int) string { return trs[i%len(trs)] }
 	// ---- packet headers: type values, length fields, truncation
-	// all 65536 type values in two configurations of the thorough tier, a sample elsewhere
+	// all 65536 type values in one configuration of the thorough tier, a sample elsewhere
 	ntypes := l.Pick(600, 4000)
-	if !l.Quick() && (cfg.Name == "openid-plain" || cfg.Name == "ntlm-plain-bufs") {
+	if !l.Quick() && cfg.Name == "openid-plain" {
 		ntypes = 65536
 	}
 	for i := 0; i < ntypes; i++ {
@@ -339,7 +339,7 @@ func c10Inputs(l *Lab, cfg c10Cfg, rnd *rand.Rand) []c10Input {
 			}
 		}
 	}
-	for i := 0; i < l.Pick(300, 6000); i++ {
+	for i := 0; i < l.Pick(300, 4000); i++ {
 		i := i
 		seed := rnd.Int63()
 		add("prng-packets", fmt.Sprintf("prng packet stream %d", i), func(w *c10World, rec *c10Rec) {
@@ -801,7 +801,7 @@ func CheckC10(l *Lab, verifDir string) int {
 	}
 	defer idp.Close()
 	var wg sync.WaitGroup
-	sem := make(chan struct{}, 3)
+	sem := make(chan struct{}, 4)
 	for ci, cfg := range cfgs {
 		wg.Add(1)
 		sem <- struct{}{}
